@@ -46,10 +46,16 @@ class Case:
     token), `prods` source productions, an optional long production (r rule symbols,
     t token symbols) in U1, S = chain of `chain` tokens (one LR state per position)."""
 
-    def __init__(self, kind, rules, tokens, prods, chain=1, pool=1, long=None, implicit=0, tag=""):
+    def __init__(self, kind, rules, tokens, prods, chain=1, pool=1, long=None, implicit=0, tag="", long2=None):
         assert rules >= 1 and prods >= rules and pool >= 1
         self.kind, self.rules, self.tokens, self.prods = kind, rules, tokens, prods
         self.chain, self.pool, self.long, self.implicit, self.tag = chain, pool, long, implicit, tag
+        # long2: a second long production (the only production of U2), e.g. token-heavy while
+        # `long` (U1) is rule-heavy and longer in the source
+        self.long2 = long2
+        if long2 and rules < 3:
+            self.rules = rules = 3
+            self.prods = prods = max(prods, 3)
         if kind != "E":
             self.implicit = 0
         need = pool + self.implicit
@@ -67,7 +73,12 @@ class Case:
             if extra:
                 g.append((extra, 0, 2))
             if self.rules > 2:
-                g.append((self.rules - 2, 0, 1))
+                if self.long2:
+                    g.append((1,) + tuple(self.long2))
+                    if self.rules > 3:
+                        g.append((self.rules - 3, 0, 1))
+                else:
+                    g.append((self.rules - 2, 0, 1))
         return g
 
     def src(self):
@@ -90,7 +101,11 @@ class Case:
             alts = [first + act] + ["'p0' 'p0'" + act] * extra
             out.append("U1%s: %s;" % (ty, "\n | ".join(alts)))
             body = "%s: 'p0'%s;" % (ty, act)
-            out.append("\n".join("U%d%s" % (i, body) for i in range(2, self.rules)))
+            first2 = 2
+            if self.long2 and self.rules > 2:
+                out.append("U2%s: %s%s;" % (ty, " ".join(["S"] * self.long2[0] + ["'p0'"] * self.long2[1]), act))
+                first2 = 3
+            out.append("\n".join("U%d%s" % (i, body) for i in range(first2, self.rules)))
         return "\n".join(out) + "\n"
 
     def inputs(self):
@@ -109,11 +124,11 @@ class Case:
 
     def desc(self):
         return {"kind": self.kind, "rules": self.rules, "tokens": self.tokens, "prods": self.prods,
-                "chain": self.chain, "pool": self.pool, "long": self.long, "implicit": self.implicit, "tag": self.tag}
+                "chain": self.chain, "pool": self.pool, "long": self.long, "long2": self.long2, "implicit": self.implicit, "tag": self.tag}
 
     def key(self):
-        return "%s r%d t%d p%d c%d k%d l%s i%d" % (self.kind, self.rules, self.tokens, self.prods, self.chain,
-                                                     self.pool, self.long, self.implicit)
+        return "%s r%d t%d p%d c%d k%d l%s m%s i%d" % (self.kind, self.rules, self.tokens, self.prods, self.chain,
+                                                         self.pool, self.long, self.long2, self.implicit)
 
 
 def lex_src(n):
@@ -184,6 +199,96 @@ def comparable(r):
     return (sorted(g.items()), r["T"], sorted(t.items()), r["tmsg"] if r["T"] != "OK" else "", tuple(r["P"]))
 
 
+def width_invariant(line):
+    """renaming-invariant observations of one build: (stage outcomes, #sr, #rr, #states, parse outcomes
+    without state numbers)"""
+    r = parse_impl(line)
+    if r["G"] != "OK":
+        return ("G", r["G"], refusal_class(r["gmsg"]))
+    if r["T"] != "OK":
+        return ("T", r["T"], refusal_class(r["tmsg"]) if r["T"] == "REFUSED" else r["tmsg"][:60])
+    t = r["t"]
+    outs = []
+    for p in r["P"]:
+        o = p.split(" => ", 1)[1] if " => " in p else p
+        f = o.split()
+        if f and f[0] == "rej" and len(f) >= 3:
+            o = " ".join([f[0], f[1]] + f[3:])          # drop the state number
+        outs.append(o)
+    return ("OK", t.get("sr"), t.get("rr"), t.get("ns"), tuple(outs))
+
+
+def merge_family(ctx, exe_r):
+    """small LR(1)-but-not-LALR(1) grammars (Pager must decide which same-core states to merge): the
+    decision must not depend on the storage width although the hash order of the item maps does"""
+    from gen import grammars as gg
+    rng = ctx.rng
+    gs = []
+    # the classic shape with two inner rules in both declaration orders (hash order of kernel items)
+    def txt(rules):
+        return gg.from_text("%start S\n%%\n" + "\n".join(r.strip() + ";" for r in rules.split(";") if r.strip()) + "\n")
+    for e, f in (("E", "F"), ("F", "E")):
+        gs.append(txt("S: 'a' %s 'c' | 'a' %s 'x' | 'a' %s 'd' | 'b' %s 'x' | 'b' %s 'c' | 'y' Q; %s: 'e'; Q: 'q' | 'q' 'q'; %s: 'e';"
+                      % (e, e, f, e, f, e, f)))
+        gs.append(txt("S: 'a' %s 'a' | 'b' %s 'b' | 'a' %s 'b' | 'b' %s 'a'; %s: 'e'; %s: 'e';" % (e, e, f, f, e, f)))
+    n = ctx.n(18, 120)
+    for i in range(n):
+        gs.append(gg.not_lalr_template(rng))
+        gs.append(gg.not_lalr_multi(rng))
+        gs.append(gg.depth_merge_grammar(rng))
+        g = gg.layered_grammar(rng).reduced()
+        if g is not None:
+            gs.append(g)
+    seen, uniq = set(), []
+    for g in gs:
+        if g is not None and g.key() not in seen:
+            seen.add(g.key())
+            uniq.append(g)
+    gs = uniq
+    lines, meta = [], []
+    for g in gs:
+        inputs = gg.inputs_for(rng, g, ctx.n(10, 20), maxlen=8)
+        ins = " ; ".join(" ".join(x) for x in inputs)
+        for w in WIDTHS:
+            lines.append("N %d %s ; %s" % (w, hx(g.render()), ins))
+            meta.append((g, w))
+    out = core.run_lines([exe_r], lines)
+    nbad = 0
+    for k in range(0, len(lines), 3):
+        g = meta[k][0]
+        obs = {w: width_invariant(out[k + j]) for j, w in enumerate(WIDTHS)}
+        ths = {w: parse_impl(out[k + j]).get("t", {}).get("th") for j, w in enumerate(WIDTHS)}
+        ref = obs[32]
+        nontriv = ref[0] == "OK" and int(ref[3] or 0) >= 8 and any(o.startswith("acc") for o in ref[4]) and any(o.startswith("rej") for o in ref[4])
+        for j, w in enumerate(WIDTHS):
+            ctx.case("merge %s w%d" % (g.key(), w), nontriv, {"grammar": g.render(), "width": w, "impl": out[k + j][:400]})
+        ctx.count("merge_family_grammars")
+        if len(set(ths.values())) > 1:
+            ctx.count("merge_family_tables_not_isomorphic")
+        accepting = [w for w in WIDTHS if obs[w][0] == "OK"]
+        if ref[0] != "OK" or any(obs[w] != ref for w in accepting) or len(accepting) != 3:
+            nbad += 1
+            diff = []
+            for w in (8, 16):
+                if obs[w] != ref:
+                    if obs[w][0] == "OK" and ref[0] == "OK":
+                        for name, a, b in zip(("sr_conflicts", "rr_conflicts", "states"), obs[w][1:4], ref[1:4]):
+                            if a != b:
+                                diff.append("u%d: %s=%s, u32: %s" % (w, name, a, b))
+                        for i, (a, b) in enumerate(zip(obs[w][4], ref[4])):
+                            if a != b:
+                                diff.append("u%d: input #%d -> %s, u32 -> %s" % (w, i, a, b))
+                    else:
+                        diff.append("u%d: %s, u32: %s" % (w, obs[w][:3], ref[:3]))
+            ctx.violation({"grammar": g.render(), "widths": {str(w): out[k + j][:500] for j, w in enumerate(WIDTHS)},
+                           "differences": diff[:12] or ["a build of this small grammar did not succeed"],
+                           "why": "conflict counts, state count or parse results (accept/tree, first error position) of this small grammar "
+                                  "depend on the index storage width",
+                           "replay_cmd": "for w in 8 16 32; do echo \"N $w %s ; <inputs>\" | .work/target/release/c20; done" % hx(g.render())})
+    ctx.oblige(nbad == 0, "width-independence-on-merge-family")
+    return len(gs)
+
+
 def gen_cases(ctx, w, full):
     """boundary configurations for width w (B = 2^w)"""
     B = 1 << w
@@ -207,6 +312,14 @@ def gen_cases(ctx, w, full):
                 h = (n + 1) // 2
                 cs.append(Case(kind, 2, 1, 2, long=(0, h), implicit=imp, tag="symbols-eco-doubling"))
                 cs.append(Case(kind, 2, 1, 2, long=(n - 2 * (n // 3), n // 3), implicit=imp, tag="symbols-eco-mixed"))
+            # two long productions: the one that overflows after Eco's expansion (a `~` after every token)
+            # is NOT the longest in the source: U1 rule-heavy and longer, U2 token-heavy around 2^w/2 tokens
+            h = (n + 1) // 2
+            heavy = (B * 25) // 32            # 200 for w = 8: fits on its own, longer than U2 in the source
+            cs.append(Case(kind, 3, 1, 3, long=(heavy, 0), long2=(0, h), implicit=imp, tag="symbols-2prods-tok-vs-rule"))
+            cs.append(Case(kind, 3, 1, 3, long=(0, h), long2=(heavy, 0), implicit=imp, tag="symbols-2prods-tok-vs-rule"))
+            cs.append(Case(kind, 3, 1, 3, long=(heavy, 3), long2=(n - 2 * (n // 3), n // 3), implicit=imp, tag="symbols-2prods-mixed"))
+            cs.append(Case(kind, 3, 1, 3, long=(heavy - 40, 20), long2=(7, (n - 7 + 1) // 2), implicit=imp, tag="symbols-2prods-mixed"))
             # states at the boundary: chain of n-2 tokens gives n states (non-Eco)
             if not (kind == "E" and imp):
                 cs.append(Case(kind, 1, pool, 1, chain=n - 2, pool=pool, tag="states"))
@@ -244,6 +357,8 @@ def run(ctx):
             cases.append(Case("N", 1, 16, 1, chain=n - 2, pool=16, tag="states"))
         cases.append(Case("E", B - 3, 2, B - 3, implicit=1, tag="rules"))
         cases.append(Case("E", 2, 1, 2, long=(0, B // 2), implicit=1, tag="symbols-eco-doubling"))
+        cases.append(Case("E", 3, 1, 3, long=(50000, 0), long2=(0, B // 2), implicit=1, tag="symbols-2prods-tok-vs-rule"))
+        cases.append(Case("E", 3, 1, 3, long=(50000, 0), long2=(0, B // 2 - 1), implicit=1, tag="symbols-2prods-tok-vs-rule"))
     else:
         cases += gen_cases(ctx, 16, False)
     # distinct
@@ -256,11 +371,11 @@ def run(ctx):
 
     env = {"GVH_CASE_TIMEOUT_MS": "600000"}
     hl = [c.harness_line(w) for c in cases for w in WIDTHS]
-    big = any(c.rules > 1000 or c.tokens > 1000 or c.prods > 1000 or c.chain > 1000 or (c.long and sum(c.long) > 1000) for c in cases)
     impl_r = core.run_lines([exe_r], hl, timeout=3000, env=env)
     # debug profile (overflow checks, debug assertions): all 8-bit-sized cases, the big ones only in thorough
     dbg_idx = [i for i, c in enumerate(cases)
-               if not (c.rules > 1000 or c.tokens > 1000 or c.prods > 1000 or c.chain > 1000 or (c.long and sum(c.long) > 1000)) or not ctx.quick]
+               if not (c.rules > 1000 or c.tokens > 1000 or c.prods > 1000 or c.chain > 1000 or (c.long and sum(c.long) > 1000)
+                       or (c.long2 and sum(c.long2) > 1000)) or not ctx.quick]
     dl = [cases[i].harness_line(w) for i in dbg_idx for w in WIDTHS]
     impl_d_l = core.run_lines([exe_d], dl, timeout=3000, env=env)
     impl_d = {}
@@ -287,10 +402,11 @@ def run(ctx):
         ref = parse_impl(impl_r[i * 3 + 2])
         m = parse_kv(model[k])
         B = 1 << w
-        sizes = [c.rules, c.tokens, c.prods, (sum(c.long) if c.long else 0), c.chain + 2]
-        near = any(B - 6 <= v <= B + 1 for v in sizes) or (c.long and c.kind == "E" and c.implicit and B - 6 <= c.long[0] + 2 * c.long[1] <= B + 2)
-        replay = ("cd /verif && python3 -c 'from checks.C20 import Case; print(Case(\"%s\", %d, %d, %d, chain=%d, pool=%d, long=%r, implicit=%d)"
-                  ".harness_line(%d))' | .work/target/release/c20" % (c.kind, c.rules, c.tokens, c.prods, c.chain, c.pool, c.long, c.implicit, w))
+        sizes = [c.rules, c.tokens, c.prods, (sum(c.long) if c.long else 0), (sum(c.long2) if c.long2 else 0), c.chain + 2]
+        near = any(B - 6 <= v <= B + 1 for v in sizes) or any(
+            l and c.kind == "E" and c.implicit and B - 6 <= l[0] + 2 * l[1] <= B + 2 for l in (c.long, c.long2))
+        replay = ("cd /verif && python3 -c 'from checks.C20 import Case; print(Case(\"%s\", %d, %d, %d, chain=%d, pool=%d, long=%r, long2=%r, implicit=%d)"
+                  ".harness_line(%d))' | .work/target/release/c20" % (c.kind, c.rules, c.tokens, c.prods, c.chain, c.pool, c.long, c.long2, c.implicit, w))
         base = {"case": c.desc(), "width": w, "impl": line_r[:600], "impl_u32": impl_r[i * 3 + 2][:600], "model": model[k],
                 "replay_cmd": replay, "guards_fixed": GUARDS_FIXED}
         if "true" not in m:
@@ -421,6 +537,8 @@ def run(ctx):
                 ctx.violation(dict(base, broken="correspondence C20 lexer mirror vs implementation"), no_input=True)
     ctx.oblige(nl == 0, "correspondence-lexer")
 
+    n_merge = merge_family(ctx, exe_r)
+
     ctx.coverage["rule"] = (
         "grammars S(chain of c tokens)+unused rules/tokens/productions with ONE dimension (source rules, tokens, productions, symbols of "
         "a production [all-token, all-rule, Eco-doubling, mixed], LR states via chain length) at 2^w-6 … 2^w+1 for w=8 (all of "
@@ -428,7 +546,12 @@ def run(ctx):
         "plus random two-dimension mixes; each built with u8, u16, u32 storage in release and debug profile (big ones debug only in thorough), "
         "3 inputs parsed; lexers of 253…258 (thorough also 65534…65537) rules x 3 widths x 2 profiles. "
         "A case = (configuration, width); non-trivial = some count within [2^w-6, 2^w+1] of that width; distinct by configuration+width. "
-        "Eco grammars use ONE implicit token (with >= 2 the numbering of `~` productions depends on HashMap order, cf. C15).")
+        "Eco grammars use ONE implicit token (with >= 2 the numbering of `~` productions depends on HashMap order, cf. C15). "
+        "Two-long-production configurations: a rule-heavy production that is longer in the source beside a token-heavy one that outgrows it "
+        "after Eco's expansion (2^w/2 tokens -6…+1, and mixes). ") + (
+        "Merge family: %d small LR(1)-not-LALR(1) grammars (gen.grammars not_lalr_template / not_lalr_multi / depth_merge_grammar / "
+        "layered_grammar.reduced + the classic E/F shape in both declaration orders) x 3 widths with generated inputs; compared across widths: "
+        "#sr, #rr conflicts, #states, accept+tree / first-error position per input (non-trivial: >= 8 states, an accepted and a rejected input)." % n_merge)
     ctx.coverage["exhaustive"] = False
     ctx.coverage["guards_variant_expected"] = "fixed" if GUARDS_FIXED else "original"
     ctx.coverage["property_level_witnesses"] = nprop
@@ -439,5 +562,6 @@ def run(ctx):
         "usize is 64 bit (C20_cell_roundtrip needs width(usize) >= width(StorageT) + 2)",
         "the theorems are about reported sizes and indices (the bookkeeping mirror); equality of table CONTENTS and parse results across widths is "
         "decided by the differential run only (transcript of an accepted u8/u16 build == transcript of the u32 build), not by a theorem",
-        "generated grammars have no weakly-compatible state merges, so their state graph is unique up to renumbering (Pager's merge order follows hash order and could otherwise differ between widths)",
+        "boundary-size grammars have no weakly-compatible state merges, so their state graph is unique up to renumbering; for the merge family "
+        "only renaming-invariant observations (conflict counts, state count, parse results) must agree — non-isomorphic tables are counted, not alarmed",
     ]
